@@ -203,3 +203,60 @@ def check(facts):
     if fname(facts, "Ucs2Input", "next_right"):
         r.ok("Ucs2Input calls no surrogate predicate", nontrivial=False)
     return r
+
+
+# ---- CROSSIMPL ------------------------------------------------------------------------------
+
+CROSS_PAIRS = [("AsciiInput", "Utf8Input"), ("Ucs2Input", "Utf16Input")]
+CROSS_METHODS = ("subrange_eq", "match_bytes", "find_bytes", "try_move_right", "try_move_left")
+
+
+def check_crossimpl(facts):
+    """The input indexers come in pairs that treat the text the same way at the level of raw units: AsciiInput / Utf8Input over
+    bytes, Ucs2Input / Utf16Input over u16. Their comparison and movement methods (subrange_eq, match_bytes, find_bytes,
+    try_move_right/left) are written once per impl; for each pair and method the symbolic path summaries — canonical branch
+    conditions, returned value, final value of the `pos` out-parameter — must be the same set. (Hoisting a sub-expression,
+    flipping a comparison or reordering the arms of one copy does not change the summary; forgetting `*pos = start` in one
+    direction of one copy, or comparing the wrong window in one `cfg` arm, does.)"""
+    r = RuleResult("CROSSIMPL", " ".join(check_crossimpl.__doc__.split()))
+    n = 0
+    for ia, ib in CROSS_PAIRS:
+        for m in CROSS_METHODS:
+            fa, fb = fname(facts, ia, m), fname(facts, ib, m)
+            if not fa or not fb:
+                continue
+            key = "%s::%s ~ %s::%s" % (ia, m, ib, m)
+            sums = []
+            bad = None
+            for fn in (fa, fb):
+                try:
+                    ps = symex.SymEx(facts.body(fn)).run()
+                except symex.Unsupported as e:
+                    bad = "cannot summarise %s (%s)" % (fn, e)
+                    break
+                out = set()
+                for p in ps:
+                    if p.diverged:
+                        out.add(("DIVERGES", tuple((g, str(v)) for g, v in symex.cguards(p))))
+                        continue
+                    cells = tuple(sorted((str(k), symex.show(v)) for k, v in p.cells.items()))
+                    out.add((tuple((g, str(v)) for g, v in symex.cguards(p)), symex.show(p.ret) if p.ret is not None else None, cells))
+                sums.append(out)
+            if bad:
+                # panicking stubs (byte matching on UTF-16) are not comparable
+                if all(any("panic" in (t.get("callee") or "") for _, t in facts.body(fn).iter_calls()) for fn in (fa, fb)):
+                    continue
+                r.fail(key, bad, facts.loc(fa))
+                continue
+            if all(len(s) == 1 and list(s)[0][0] == "DIVERGES" for s in sums):
+                continue
+            n += 1
+            if sums[0] == sums[1]:
+                r.ok(key, "%d paths" % len(sums[0]))
+                r.sample({"pair": key, "paths": len(sums[0]), "example": str(sorted(sums[0], key=str)[0])[:200]})
+            else:
+                oa, ob = sorted(sums[0] - sums[1], key=str), sorted(sums[1] - sums[0], key=str)
+                r.fail(key, "the two indexers no longer behave alike in %s: only %s has %s; only %s has %s" % (
+                    m, ia, str(oa[:1])[:260], ib, str(ob[:1])[:260]), facts.loc(fb))
+    r.floor("method_pairs", n, 4)
+    return r
